@@ -1,3 +1,4 @@
+#![allow(dead_code)]
 //! Concrete-syntax tree of a JaCoCo report: abstract content (names, numbers) + the serialisation
 //! choices (`Shell`), the two serialisers (XML bytes / quick-xml event list in the driver
 //! encoding) and the independent semantics `sem`.
